@@ -33,6 +33,7 @@ func init() {
 		Rule{ID: "R20j", Doc: "reply control messages built in pool buffers are written completely (a stale interface index makes sendmsg fail: no response)", Floor: 3, Run: r20j},
 		Rule{ID: "R16c", Doc: "an exchange never returns (nil, nil) (shared with C16)", Floor: 4, Run: r16c},
 		Rule{ID: "R13e", Doc: "one frame, one Write on stream listeners (shared with C13)", Floor: 4, Run: r13e},
+		Rule{ID: "R06c", Doc: "the stream frame reader consumes exactly prefix + body with exact-length reads (a body split over segments is still one decodable query that must be answered; shared with C06/C13)", Floor: 6, AllVariants: true, Run: r06c},
 	)
 }
 
